@@ -33,7 +33,7 @@ def shards(tier, seed):
     for i in range(4 if q else 16):
         out.append(("randorders_%d" % i, dict(kind="rand", count=60 if q else 400)))
     for c in lib.pick_curves(tier, seed, extra=12):
-        out.append(("det_%s" % c.name, dict(kind="det", cname=c.name, count=5 if q else 40)))
+        out.append(("det_%s" % c.name, dict(kind="det", cname=c.name, count=9 if q else 45)))
     ts = sigs.toy_prime_curves(5, 31 if q else 61)
     lt = [t for t in ts if t.N < t.curve.p]
     # curves with a point whose x is a NON-ZERO multiple of n: there r = 0 arises only after the reduction mod n
@@ -156,7 +156,8 @@ def run(ctx, name, kind, **kw):
             hf = lib.hash_by_name(hname)
             sk = ecdsa.SigningKey.from_secret_exponent(d, c, hf)
             msg = b"c04 %d" % i
-            extra = (b"", b"\x05", b"q" * 40)[i % 3]
+            # extra entropy of every size class: empty, short, exactly one hash block (64 / 128 bytes), one more, several blocks
+            extra = (b"", b"\x05", b"q" * 40, bytes(range(64)), bytes(range(65)), bytes(range(128)), bytes(range(129)), b"x" * 200, bytes(rng.getrandbits(8) for _ in range(1000)))[(i + len(c.name) + n % 7) % 9]
             encname = list(sigs.ENCODINGS)[i % 3]            # plain encoders: exact value comparison
             enc, dec, _ = sigs.ENCODINGS[encname]
             fmt = sigs.DECODER_FMT[dec]
@@ -167,6 +168,14 @@ def run(ctx, name, kind, **kw):
             _det_call(ctx, "det.value", "%s|%s|%s|x%d" % (c.name, hname, encname, len(extra)), c, d, hname,
                       lambda: sk.sign_deterministic(msg, sigencode=enc, extra_entropy=extra), fmt, n, want,
                       "sk.sign_deterministic(%r, hashfunc=H, sigencode=util.sigencode_%s, extra_entropy=%r)" % (msg, encname, extra))
+            # messages of structured lengths (empty, around hash block sizes, exact multiples of 64 KiB / 1 MiB): the message is hashed as
+            # a whole, however long it is
+            if i < 6:
+                for mlen in ((0, 1, 63, 64, 65, 127, 128, 129, 4096, 65535, 65536, 65537) if i % 2 else (1 << 20, (1 << 20) - 1, (1 << 20) + 1, 2 << 20, 3 << 20, 1 << 16)):
+                    big = (b"c04 long message " * 70000)[:mlen] if mlen else b""
+                    dgb = hf(big).digest()
+                    wantb = _ref_det(dom, d, hf, dgb, ecdsa_ref.digest_to_e(dom, dgb, True), b"")
+                    _det_call(ctx, "det.value", "%s|%s|msglen%d" % (c.name, hname, mlen), c, d, hname, lambda: sk.sign_deterministic(big, sigencode=enc), fmt, n, wantb, None)
             # the digest handed over in bytes-like containers, including ones whose items are wider than a byte
             import array
             for dl in (L + 2, 2 * L - 2, L):
